@@ -107,7 +107,7 @@ def foldRun {P β : Type} (step : P → β → P) (p0 : P) (bs : List β) : P :=
 /-- the parameters after every batch, in order (what a recording optimizer sees after each `step()`) -/
 def foldTrace {P β : Type} (step : P → β → P) : P → List β → List P
   | _, [] => []
-  | p, b :: bs => step p b :: foldTrace step (step p b) bs
+  | p, b :: bs => let p' := step p b; p' :: foldTrace step p' bs
 
 /-- a positive-state batch: positive rows and chain end states -/
 abbrev PosBatch (α : Type) (n : Nat) := (Σ B : Nat, Fin B → Fin n → α) × (Σ M : Nat, Fin M → Fin n → α)
